@@ -33,15 +33,21 @@ class FileBinaryStreamDeserializer:
 
 class FileStream:
     def __init__(self, path, process_all=False):
-        # a directory is monitored for new files of any name (spelled without
-        # a wildcard it would resolve like a saved dataset: its part-* files)
-        local_path = path[7:] if path.startswith('file://') else path
-        if os.path.isdir(local_path):
-            path = path.rstrip('/') + '/*'
-        self.path = path
+        self._path = path
         self.files_done = set()
         if not process_all:
             self.files_done = set(File.resolve_filenames(self.path))
+
+    @property
+    def path(self):
+        # a directory is monitored for new files of any name (spelled without
+        # a wildcard it would resolve like a saved dataset: its part-* files);
+        # it may come into being after the stream has been defined
+        path = self._path
+        local_path = path[7:] if path.startswith('file://') else path
+        if os.path.isdir(local_path):
+            return path.rstrip('/') + '/*'
+        return path
 
     def get(self):
         files = [fn for fn in File.resolve_filenames(self.path)
